@@ -6,6 +6,7 @@
 
 pub mod net;
 pub mod reader_rig;
+pub mod writer_rig;
 
 use std::sync::OnceLock;
 
